@@ -247,7 +247,7 @@ def run_cases(dirpath, workers=None):
             if not m:
                 errs.append("%s: unparsable output: %s" % (os.path.basename(path), flat[:500]))
                 continue
-            for a, b in re.findall(r"\(\s*(\d+),\s*(\d+)\s*\)", m.group(1)):
+            for a, b in re.findall(r"\(\s*(\d+)\s*,\s*(\d+)\s*\)", m.group(1)):
                 mism.append((int(a), int(b)))
     return sorted(set(mism)), errs
 
